@@ -351,7 +351,14 @@ def _check_householder(ctx, prog, RULE="C08.D5.reflector"):
             calls.append((a, v))
             return uu.copy(), zz
 
-        it, d = new_interp(ctx, chooser=lambda interp, node, cond: (not vzero), summaries={"decomp.tridiagonalize:householder_vector": s_hv})
+        def ch_m(interp, node, cond, vzero=vzero):
+            parts = cond_parts(cond)
+            if parts is None:
+                return None
+            op = parts[0]                      # the only data-dependent test: ||v|| == 0 / != 0 (either spelling)
+            return vzero if op == "eq" else ((not vzero) if op == "ne" else None)
+
+        it, d = new_interp(ctx, chooser=ch_m, summaries={"decomp.tridiagonalize:householder_vector": s_hv})
         a = sym_quat("a", (k,))
         v = sym_real("v", (k,))
         st, out = run_guarded(lambda: it.run(f_hm, [a, v]))
